@@ -501,6 +501,157 @@ func c17RandTM(r *rand.Rand, g *Gram, name string, f c17Feat, n c17Names) string
 	return sb.String()
 }
 
+// c17WidthTM: a grammar whose tables sit at a boundary of the element types chosen by bits_per_element. The parser
+// has one rule of `n` keywords (n + 4 states: tmTable / tmCheck / tmFromTo / the state type, and tmRuleLen = n) and
+// the lexer a literal of `l` characters (about l + 6 DFA states: tmLexerAction).
+func c17WidthTM(name string, n, l int, optimize, eventBased bool) string {
+	var sb strings.Builder
+	fmt.Fprintf(&sb, "language %s(go);\n\nlang = %q\npackage = \"gp/%s\"\n", name, name, name)
+	if eventBased {
+		sb.WriteString("eventBased = true\n")
+	}
+	if optimize {
+		sb.WriteString("optimizeTables = true\n")
+	}
+	sb.WriteString("\n:: lexer\n\nWhiteSpace: /[ \\t\\n]+/ (space)\n'k': /k/\n")
+	fmt.Fprintf(&sb, "long: /%s/\n", strings.Repeat("a", l))
+	sb.WriteString("\n:: parser\n\n%input S;\n\nS")
+	if eventBased {
+		sb.WriteString(" -> Root")
+	}
+	sb.WriteString(" :\n   ")
+	for i := 0; i < n; i++ {
+		sb.WriteString(" 'k'")
+		if i%20 == 19 {
+			sb.WriteString("\n   ")
+		}
+	}
+	sb.WriteString(" long ;\n")
+	return sb.String()
+}
+
+// overheads of c17WidthTM: states = keywords + c17WidthStatesOverhead, lexer DFA states = literal length + c17WidthLexOverhead
+const (
+	c17WidthStatesOverhead = 4
+	c17WidthLexOverhead    = 3
+)
+
+// c17Widths compares gen.bitsPerElement / gen.bits with the Lean mirror on arrays that mix small values with the
+// extremes of every width (both signs).
+func c17Widths(c *Ctx) {
+	edge := []int{0, 1, -1, 126, 127, 128, 129, -127, -128, -129, -130, 255, 256, 32766, 32767, 32768, 32769, -32767, -32768, -32769, -32770,
+		65535, 65536, 1<<31 - 1, -(1 << 31), 1<<31 - 2, -(1<<31 - 1)}
+	val := func() int {
+		switch c.Rng.Intn(9) {
+		case 0, 1:
+			return pick(c.Rng, edge)
+		case 2:
+			return c.Rng.Intn(1<<17) - 1<<16
+		case 3:
+			return c.Rng.Intn(1<<31) - 1<<30
+		default:
+			return c.Rng.Intn(300) - 150
+		}
+	}
+	for i := 0; i < c.N(600, 6000); i++ {
+		n := c.Rng.Intn(10)
+		if i < 40 {
+			n = i % 3
+		}
+		arr := make([]int, n)
+		for k := range arr {
+			arr[k] = val()
+			if c.Rng.Intn(3) == 0 {
+				arr[k] = c.Rng.Intn(200) - 100 // mostly small, so that ONE extreme decides
+			}
+		}
+		got := func() (s string) {
+			defer func() {
+				if r := recover(); r != nil {
+					s = "panic"
+				}
+			}()
+			return fmt.Sprint(gen.VerifBitsPerElement(arr))
+		}()
+		key := ""
+		if n > 0 {
+			key = "w:" + ints(arr)
+		}
+		c.Case("width "+ints(arr), got, key)
+		c.Count("width-answer-" + got)
+	}
+	for i := 0; i < c.N(200, 1000); i++ {
+		v := val()
+		c.Case(fmt.Sprintf("bits %d", v), fmt.Sprint(gen.VerifBits(v)), fmt.Sprintf("b:%d", v))
+	}
+}
+
+// c17LexShapeTM: lexer shapes. bit 0: a (space) rule; bit 1: a rule with a code action; bit 2: typed token;
+// bit 3: class rule with keywords; bit 4: explicit invalid_token rule; bit 5: backtracking; bit 6: a parser on top;
+// bit 7: start conditions; bit 8: tokenLine off; bit 9: scanBytes.
+func c17LexShapeTM(name string, m int) (string, c17Feat) {
+	on := func(k int) bool { return m&(1<<k) != 0 }
+	f := c17Feat{"lexerOnly": !on(6), "eventBased": on(6), "lexerCode": on(1), "typedToken": on(2), "classRule": on(3),
+		"invalidToken": on(4), "backtrack": on(5), "startConds": on(7), "noTokenLine": on(8), "scanBytes": on(9)}
+	var sb strings.Builder
+	fmt.Fprintf(&sb, "language %s(go);\n\nlang = %q\npackage = \"gp/%s\"\n", name, name, name)
+	if on(6) {
+		sb.WriteString("eventBased = true\n")
+	}
+	if on(8) {
+		sb.WriteString("tokenLine = false\n")
+	}
+	if on(9) {
+		sb.WriteString("scanBytes = true\n")
+	}
+	sb.WriteString("\n:: lexer\n\n")
+	if on(7) {
+		sb.WriteString("%x inBlk;\n\n")
+	}
+	if on(0) {
+		sb.WriteString("blank: /[ \\t]+/ (space)\n")
+	} else {
+		sb.WriteString("blank: /[ \\t]+/\n")
+	}
+	sb.WriteString("eol: /\\r?\\n/\n")
+	if on(3) {
+		sb.WriteString("word: /[a-zA-Z_]+/ (class)\n'if': /if/\n")
+	} else {
+		sb.WriteString("word: /[a-zA-Z_]+/\n")
+	}
+	switch {
+	case on(2):
+		sb.WriteString("number {int}: /[0-9]+/ { $$ = len(l.Text()) }\n")
+	case on(1):
+		sb.WriteString("number: /[0-9]+/ { _ = l.Text() }\n")
+	default:
+		sb.WriteString("number: /[0-9]+/\n")
+	}
+	if on(1) && on(2) {
+		sb.WriteString("dot: /\\./ { _ = l.Text() }\n")
+	}
+	if on(5) {
+		sb.WriteString("arrow: /-(-)*>/\n'-': /-/\n")
+	}
+	if on(4) {
+		sb.WriteString("invalid_token: /\\$+/\n")
+	}
+	if on(7) {
+		sb.WriteString("\nblkOpen: /\\[\\[/ { l.State = StateInBlk }\n<inBlk> {\n  blkBody: /[^\\]]+|\\]/\n  blkClose: /\\]\\]/ { l.State = StateInitial }\n}\n")
+	}
+	if on(6) {
+		sb.WriteString("\n:: parser\n\n%input Input;\n\nInput -> Input :\n    Line+ ;\n\nLine -> Line :\n    Item+ eol ;\n\nItem -> Item :\n    word | number")
+		if !on(0) {
+			sb.WriteString(" | blank")
+		}
+		if on(3) {
+			sb.WriteString(" | 'if'")
+		}
+		sb.WriteString(" ;\n")
+	}
+	return sb.String(), f
+}
+
 // ---- pairwise option vectors -----------------------------------------------------------------------------------
 
 // c17Pairwise yields n feature vectors: greedily, each new vector is the best of a few random candidates by the
@@ -605,6 +756,16 @@ func c17Child(dir string) {
 				files = append(files, fn)
 			}
 			sort.Strings(files)
+			if g.Parser != nil && g.Parser.Tables != nil {
+				maxLen := 0
+				for _, l := range g.Parser.Tables.RuleLen {
+					maxLen = max(maxLen, l)
+				}
+				fmt.Printf("size %s states=%d maxRuleLen=%d\n", name, g.Parser.Tables.NumStates, maxLen)
+			}
+			if g.Lexer != nil && g.Lexer.Tables != nil && g.Lexer.Tables.NumSymbols > 0 {
+				fmt.Printf("size %s lexStates=%d\n", name, len(g.Lexer.Tables.Dfa)/g.Lexer.Tables.NumSymbols)
+			}
 			fmt.Printf("ok %s %s\n", name, strings.Join(files, ","))
 		}()
 	}
@@ -664,6 +825,7 @@ type c17Case struct {
 	Status string // ok | reject | generr | panic | crash
 	Detail string
 	Files  []string
+	Size   string // automaton sizes reported by the child
 	Axioms []string
 	Build  string // "" = built; otherwise first error line
 	Vet    string
@@ -711,6 +873,8 @@ func (b *c17Batch) generate() {
 				rest = f[2]
 			}
 			switch f[0] {
+			case "size":
+				cs.Size += " " + rest
 			case "ok":
 				cs.Status, cs.Files = "ok", strings.Split(rest, ",")
 			case "reject", "generr", "panic":
@@ -1021,8 +1185,80 @@ func c17(c *Ctx) {
 		}
 	}
 
+	// ---- table widths: gen.bitsPerElement / gen.bits against the Lean mirror (theorems of Props/C17Width.lean)
+	c17Widths(c)
+
+	// ---- families that hit specific template branches in EVERY run
+	fb := c17NewBatch()
+	famSerial := 0
+	addFam := func(kind, text string, f c17Feat) {
+		famSerial++
+		name := fmt.Sprintf("f%d", famSerial)
+		text = strings.ReplaceAll(text, "language w(go)", "language "+name+"(go)")
+		text = strings.ReplaceAll(text, `lang = "w"`, fmt.Sprintf("lang = %q", name))
+		text = strings.ReplaceAll(text, `"gp/w"`, fmt.Sprintf(`"gp/%s"`, name))
+		fb.add(&c17Case{Name: name, Kind: kind, Feat: f, Text: text})
+	}
+	// (1) element-type boundaries of the generated tables: parsers with 126..131 states (and a rule of as many
+	// symbols) × optimizeTables on/off, lexers with as many DFA states; thorough: the int16 boundary too
+	evb := !avoid["[C17-ruletype-nodetype]"] && c.Rng.Intn(2) == 0 || avoid["[C17-ruletype-nodetype]"]
+	for states := 126; states <= 131; states++ {
+		for _, opt := range []bool{false, true} {
+			addFam("width", c17WidthTM("w", states-c17WidthStatesOverhead, states-c17WidthLexOverhead, opt, evb), c17Feat{"optimizeTables": opt, "eventBased": evb})
+		}
+	}
+	if c.Tier == "thorough" {
+		for _, states := range []int{32766, 32768, 32769} {
+			addFam("width16", c17WidthTM("w", states-c17WidthStatesOverhead, 40, true, evb), c17Feat{"optimizeTables": true, "eventBased": evb})
+		}
+	}
+	// (2) lexer shapes: (space rule?) × (code action?) always, the other lexer dimensions at random
+	for i := 0; i < c.N(10, 40); i++ {
+		m := i & 3 // bits 0, 1: all four combinations, repeatedly
+		if i >= 4 {
+			m |= c.Rng.Intn(1<<10) &^ 3
+		}
+		if m&(1<<9) != 0 {
+			m &^= 1 << 3 // scanBytes: no class rule needed here
+		}
+		if avoid["[C17-ruletype-nodetype]"] {
+			// a parser needs eventBased while that class is present: c17LexShapeTM sets it with bit 6
+		}
+		text, f := c17LexShapeTM("w", m)
+		addFam("lexshape", text, f)
+	}
+	fb.generate()
+	fb.build(c)
+	for _, cs := range fb.cases {
+		c.Count(cs.Kind + "-" + cs.Status)
+		if cs.Kind == "width" || cs.Kind == "width16" {
+			for _, kv := range strings.Fields(cs.Size) {
+				c.Count(cs.Kind + "-" + kv)
+			}
+		}
+		switch cs.Status {
+		case "reject":
+			c.Debugf("rejected %s [%s]: %s", cs.Kind, cs.Feat, cs.Detail)
+			if len(c.Notes) < 6 {
+				c.Notes = append(c.Notes, "a "+cs.Kind+" family grammar was rejected by the compiler (the family no longer covers its branch): "+cs.Detail)
+			}
+		case "ok":
+			if cs.Vet != "" {
+				cs.Vet = c17VetFilter(cs, avoid)
+			}
+			c17Record(c, cs)
+			if cs.Build != "" || cs.Vet != "" {
+				c17Report(c, cs, c17Classify(cs))
+			}
+		default:
+			c17Record(c, cs)
+			c17Report(c, cs, "")
+		}
+	}
+	fb.close()
+
 	// ---- sweep
-	nBatches, perBatch := c.N(1, 6), c.N(44, 50)
+	nBatches, perBatch := c.N(1, 6), c.N(40, 50)
 	pw := &c17Pairwise{r: c.Rng, covered: map[[4]int]bool{}, avoid: avoid}
 	serial := 0
 	for bi := 0; bi < nBatches; bi++ {
@@ -1281,7 +1517,7 @@ func c17LeanTie(c *Ctx, repo string) {
 			break
 		}
 	}
-	c.Case("guards", "inconsistent=0 duplicates=0 wellformed=1 tables=1", "guards")
+	c.Case("guards", "inconsistent=0 duplicates=0 unusedlabels=0 wellformed=1 tables=1", "guards")
 	if root == "" {
 		c.Notes = append(c.Notes, "tools/factgen not found from the output directory: the `facts` case is skipped")
 		return
